@@ -6,13 +6,16 @@
      Q <id> bkkt            ; same input
          -> A <id> err | sing | <kkt 0|1> <nonbasic_ok 0|1> <pfeas&dfeas verdict 0|1> <objval> <lp_bounds_ok 0|1> | z.. | y..
             (bopt / bdual / bkkt evaluate the basis as ILLbasis_load stores it: lib_optimalstatus, lib_dualstatus, loaded_basis)
-     Q <id> tab             ; ILP block ; ORD h_0 .. h_{m-1} ; then m times:  BINV <i> r.. ; TROW <i> t..
+     Q <id> tab [noinv]     ; ILP block ; ORD h_0 .. h_{m-1} ; then m times:  BINV <i> r.. ; TROW <i> t..
          -> A <id> <S|N> <per row: b t> ...      (S: the basis matrix is singular according to the model)
      Q <id> mat <n> <k> [I|Y|-] ; n lines R v.. (dense rows) ; [Y y..] ; k lines  FT a.. | x..   or  BT c.. | y..
          -> A <id> <S|N|X|?> <0|1 per check>     (I: singularity by the verified elimination; Y: y is checked to be a
             non-zero left null vector: S, else X; -: not decided)
      Q <id> repr <n> <k>    ; FDUMP .. FDUMPEND ; n lines R v.. ; k lines FT a | x  /  BT c | y
          -> A <id> <check_repr 0|1> <per solve: model walk over the dumped representation == library result>
+     Q <id> upd <n> <col>   ; FDUMP (before) ; A a.. ; S cnt (i v)* ; AFTER + FDUMP (after) | FAIL rv
+         -> A <id> <struct_ok before> <spike == S> <update_spike S|N> <same as after 0|1|-> <update S|N> <solves like after 0|1|-> <struct_ok after 0|1|->
+     Q <id> row <n>         ; R row.. ; X x.. ; V v     -> A <id> <row . x == v>
    Everything that decides anything is extracted Coq code. *)
 open Model
 open Glue
@@ -42,6 +45,31 @@ let split_bar (ts : string list) : string list * string list =
   go [] ts
 
 let bit b = if b then "1" else "0"
+
+(* FDUMP .. FDUMPEND as printed by h_fac -> repr *)
+let read_dump ic (n : int) : repr =
+  let ents ts =
+    let rec go = function
+      | i :: v :: r -> (nat_of_int (int_of_string i), q_of_string v) :: go r
+      | [] -> [] | _ -> failwith "entries" in go ts in
+  let lc = ref [] and lr = ref [] and er = ref [] and uc = ref [] and ur = ref [] and rp = ref [] and cp = ref [] in
+  let fin = ref false in
+  while not !fin do
+    match next_tokens ic with
+    | Some ("FDUMP" :: _) -> ()
+    | Some ("RPERM" :: r) -> rp := List.map (fun t -> nat_of_int (int_of_string t)) r
+    | Some ("CPERM" :: r) -> cp := List.map (fun t -> nat_of_int (int_of_string t)) r
+    | Some ("RRANK" :: _) | Some ("CRANK" :: _) -> ()
+    | Some ("LC" :: c :: _cnt :: r) -> lc := (nat_of_int (int_of_string c), ents r) :: !lc
+    | Some ("LR" :: _i :: rr :: _cnt :: r) -> lr := (nat_of_int (int_of_string rr), ents r) :: !lr
+    | Some ("ER" :: rr :: _cnt :: r) -> er := (nat_of_int (int_of_string rr), ents r) :: !er
+    | Some ("UC" :: _j :: _cnt :: r) -> uc := ents r :: !uc
+    | Some ("UR" :: _i :: _cnt :: r) -> ur := ents r :: !ur
+    | Some [ "FDUMPEND" ] -> fin := true
+    | _ -> failwith "FDUMP line"
+  done;
+  { f_dim = nat_of_int n; f_lc = List.rev !lc; f_lr = List.rev !lr; f_er = List.rev !er;
+    f_uc = List.rev !uc; f_ur = List.rev !ur; f_rperm = !rp; f_cperm = !cp }
 
 let () =
   let ic = stdin in
@@ -73,7 +101,7 @@ let () =
                let verdict = (match lib_optimalstatus !sentinel p (nat_of_int ns) isr b0 with VRes (r, _) -> r | _ -> false) in
                Printf.printf "A %s %s %s %s %s %s | %s | %s\n" id (bit k) (bit nb) (bit verdict) (string_of_q v) (bit lpok) (qs_join z) (qs_join y)
              | _, _ -> Printf.printf "A %s sing\n" id)
-         | "tab", [] ->
+         | "tab", targs ->
            let hdr = (match next_tokens ic with Some h -> h | None -> failwith "eof") in
            let (p, _) = read_ilp ic hdr in
            let ord = List.map int_of_string (expect ic "ORD") in
@@ -84,7 +112,8 @@ let () =
            let okord = List.for_all (fun h -> h >= 0 && h < nc) ord && List.length ord = m in
            let bmat = if okord then List.init m (fun i -> List.map (fun h -> coef h i) ord) else [] in
            let mn = nat_of_int m and ncn = nat_of_int nc in
-           let sing = (not okord) || (inverse mn bmat = None) in
+           (* "tab noinv": large bases, the singularity of the basis matrix is not decided by the elimination (the rows decide) *)
+           let sing = (not okord) || (targs <> [ "noinv" ] && inverse mn bmat = None) in
            let buf = Buffer.create 64 in
            for _ = 1 to m do
              let rl = expect ic "BINV" in
@@ -130,28 +159,7 @@ let () =
               is supposed to factor, then k solves FT a | x / BT c | y as returned by the library.
               answer: check_repr, then per solve whether the model's walk over the dumped representation gives the same vector *)
            let n = int_of_string n and k = int_of_string k in
-           let ents ts =
-             let rec go = function
-               | i :: v :: r -> (nat_of_int (int_of_string i), q_of_string v) :: go r
-               | [] -> [] | _ -> failwith "entries" in go ts in
-           let lc = ref [] and lr = ref [] and er = ref [] and uc = ref [] and ur = ref [] and rp = ref [] and cp = ref [] in
-           let fin = ref false in
-           while not !fin do
-             match next_tokens ic with
-             | Some ("FDUMP" :: _) -> ()
-             | Some ("RPERM" :: r) -> rp := List.map (fun t -> nat_of_int (int_of_string t)) r
-             | Some ("CPERM" :: r) -> cp := List.map (fun t -> nat_of_int (int_of_string t)) r
-             | Some ("RRANK" :: _) | Some ("CRANK" :: _) -> ()
-             | Some ("LC" :: c :: _cnt :: r) -> lc := (nat_of_int (int_of_string c), ents r) :: !lc
-             | Some ("LR" :: _i :: rr :: _cnt :: r) -> lr := (nat_of_int (int_of_string rr), ents r) :: !lr
-             | Some ("ER" :: rr :: _cnt :: r) -> er := (nat_of_int (int_of_string rr), ents r) :: !er
-             | Some ("UC" :: _j :: _cnt :: r) -> uc := ents r :: !uc
-             | Some ("UR" :: _i :: _cnt :: r) -> ur := ents r :: !ur
-             | Some [ "FDUMPEND" ] -> fin := true
-             | _ -> failwith "FDUMP line"
-           done;
-           let rep = { f_dim = nat_of_int n; f_lc = List.rev !lc; f_lr = List.rev !lr; f_er = List.rev !er;
-                       f_uc = List.rev !uc; f_ur = List.rev !ur; f_rperm = !rp; f_cperm = !cp } in
+           let rep = read_dump ic n in
            let rows = List.init n (fun _ -> qlist (expect ic "R")) in
            let nn = nat_of_int n in
            let buf = Buffer.create 64 in
@@ -164,6 +172,43 @@ let () =
              | _ -> failwith "FT/BT expected"
            done;
            Printf.printf "A %s %s%s\n" id (bit (check_repr rep rows)) (Buffer.contents buf)
+         | "upd", [ n; col ] ->
+           (* one ILLfactor_update: dump before, new column a (dense), the library's spike as listed, then either
+              "AFTER" + the dump after an accepted update or "FAIL <rv>".
+              answer: struct_ok(before)  dense(S) == spike before a  update_spike outcome S|N  repr_same_u vs after  update (own spike) outcome
+                      own result solves like the after-dump on unit vectors col, 0, n-1   struct_ok(after) *)
+           let n = int_of_string n and col = int_of_string col in
+           let nn = nat_of_int n and ncol = nat_of_int col in
+           let before = read_dump ic n in
+           let a = qlist (expect ic "A") in
+           let sl = (match expect ic "S" with _cnt :: r ->
+                       let rec go = function i :: v :: t -> (nat_of_int (int_of_string i), q_of_string v) :: go t | [] -> [] | _ -> failwith "S" in go r
+                     | [] -> failwith "S") in
+           let after = (match next_tokens ic with
+             | Some [ "AFTER" ] -> Some (read_dump ic n)
+             | Some ("FAIL" :: _) -> None
+             | _ -> failwith "AFTER/FAIL") in
+           let f1 = struct_ok before in
+           let f2 = veqb nn (dense nn sl) (spike before a) in
+           let r1 = update_spike before ncol sl in
+           let r2 = update before ncol a in
+           let f4 = (match r1, after with Some r1, Some af -> bit (repr_same_u r1 af) | _ -> "-") in
+           let f6 = (match r2, after with
+             | Some r2, Some af ->
+               let idx = List.sort_uniq compare [ col; 0; n - 1 ] in
+               bit (List.for_all (fun i -> let e = unitv nn (nat_of_int i) in
+                                   veqb nn (ftran_dense r2 e) (ftran_dense af e) && veqb nn (btran r2 e) (btran af e)) idx)
+             | _ -> "-") in
+           let f7 = (match after with Some af -> bit (struct_ok af) | None -> "-") in
+           Printf.printf "A %s %s %s %s %s %s %s %s\n" id (bit f1) (bit f2) (if r1 = None then "N" else "S") f4 (if r2 = None then "N" else "S") f6 f7
+         | "row", [ n ] ->
+           (* one equation: row . x = v, decided by the extracted mat_vec / veqb *)
+           let n = int_of_string n in
+           let row = qlist (expect ic "R") in
+           let x = qlist (expect ic "X") in
+           let v = qlist (expect ic "V") in
+           let one = nat_of_int 1 in
+           Printf.printf "A %s %s\n" id (bit (List.length row = n && List.length x = n && veqb one (mat_vec one (nat_of_int n) [ row ] x) v))
          | _ -> Printf.printf "A %s UNKNOWN-QUERY\n" id)
       with Failure m -> Printf.printf "A %s PARSE-ERROR %s\n" id m);
       flush stdout; loop ()
